@@ -15,6 +15,8 @@ ID_FAMILIES = [
     ["users_list_v1", "groups_list_v1", "users_get_v1"],
     ["a", "b", "a_b", "b_a"],
     ["type", "match", "api_type", "api_match"],
+    # ids whose remainder after trimming the common affixes would start with a digit
+    ["get_item_1", "get_item_2", "get_item_3"], ["v1_list_all", "v1_2_all", "v1_get_all"],
 ]
 
 
